@@ -14,7 +14,11 @@ Open Scope N_scope.
 Inductive srcfile :=
 | SReg (mode mtime : N) (digest : str)     (* regular file *)
 | SMissing                                  (* does not exist *)
-| SOther.                                   (* exists, neither a file nor a link (a directory) *)
+| SOther                                    (* exists, neither a file nor a link (a directory) *)
+| SLink (target : str) (tmtime : option N). (* a symbolic link that is installed as a link (follow_symlinks: false, or
+                                               dangling); tmtime = st_mtime of what it points to, None = dangling.
+                                               A link that is followed (follow_symlinks true / default) is given as the
+                                               SReg of its target *)
 
 Inductive fkind := KTarget | KHeader | KMan | KData.
 
@@ -41,7 +45,7 @@ Record wstep := mkWstep {
   w_rel : list str;
   w_mode : N;                                 (* st_mode of root *)
   w_dirs : list (str * N);                    (* name, mode *)
-  w_files : list (str * (N * N * str))        (* name, (mode, mtime, digest) *)
+  w_files : list (str * srcfile)              (* name, regular file or symbolic link *)
 }.
 
 (* SubdirInstallData *)
@@ -256,10 +260,21 @@ Definition get_destdir_path (destdir fullprefix p : path) : path :=
   if isabs p then destdir_join destdir p else pjoin fullprefix p.
 
 (* ------------------------------------------------------------------ do_copyfile, minstall.py:412-450 *)
-Definition do_copyfile (c : cfg) (src : srcfile) (to_file : path) (mk : option path) : M bool :=
+(* os.stat(from_file).st_mtime; None: 'Always replace dangling symlinks' (minstall.py:405-407) *)
+Definition src_mtime (src : srcfile) : option N :=
+  match src with SReg _ t _ => Some t | SLink _ tm => tm | _ => None end.
+(* minstall.py:441-451: copy2 of a regular file (or of a followed link); for a link installed as a link
+   shutil.copy/copy2(..., follow_symlinks=False) = os.symlink(os.readlink(src), dst) - the permission bits of a
+   link cannot be set on Linux, copystat skips them *)
+Definition src_create (src : srcfile) (to_file : path) (f : fs) : res fs :=
   match src with
-  | SReg smode smtime dg =>
-      (* with the pending fix C11-symlink-write-through: a symbolic link in the way is removed first *)
+  | SReg m t d => m_write f to_file m t d
+  | SLink tg _ => m_symlink f to_file tg
+  | _ => Err (EFail c_meson)
+  end.
+
+Definition copy_to (c : cfg) (src : srcfile) (to_file : path) (mk : option path) : M bool :=
+      (* fix cc025f2: a symbolic link in the way is removed first *)
       il <- query (fun f => q_islink f to_file) ;;
       (if il : bool then mutate c (fun f => m_unlink f to_file) else ret tt) ;;;
       e <- query (fun f => q_exists f to_file) ;;
@@ -269,7 +284,10 @@ Definition do_copyfile (c : cfg) (src : srcfile) (to_file : path) (mk : option p
                else
                  n <- query (fun f => lnode f to_file) ;;
                  (* should_preserve_existing_file, minstall.py:402-410 *)
-                 if c_only_changed c && match n with Some (NFile _ t _) => smtime <=? t | _ => false end
+                 if c_only_changed c && match n, src_mtime src with
+                                        | Some (NFile _ t _), Some smtime => smtime <=? t
+                                        | _, _ => false
+                                        end
                  then log (LPreserved to_file) ;;; ret false
                  else mutate c (fun f => m_unlink f to_file) ;;; ret true
              else
@@ -278,10 +296,16 @@ Definition do_copyfile (c : cfg) (src : srcfile) (to_file : path) (mk : option p
                | None => ret tt
                end ;;; ret true) ;;
       if go : bool then
-        mutate c (fun f => m_write f to_file smode smtime dg) ;;;      (* copy2 *)
+        mutate c (src_create src to_file) ;;;      (* copy2 / symlink *)
         log (LPath to_file) ;;;
         ret true
-      else ret false
+      else ret false.
+
+Definition do_copyfile (c : cfg) (src : srcfile) (to_file : path) (mk : option path) : M bool :=
+  match src with
+  | SReg _ _ _ => copy_to c src to_file mk
+  | SLink _ _ => copy_to c src to_file mk      (* a dangling link is re-created under its own name: same location
+                                                  whenever the destination keeps the source's name (always in install_subdir) *)
   | _ => fail (EFail c_meson)         (* 'Tried to install something that isn't a file' *)
   end.
 
@@ -333,7 +357,7 @@ Definition copydir_dir (c : cfg) (dst_dir : path) (excl_dirs : list path) (rel :
         sanitize c abs_dst.
 
 Definition copydir_file (c : cfg) (dst_dir : path) (excl_files : list path) (mode : option N)
-           (rel : list str) (rootmode : N) (e : str * (N * N * str)) : M unit :=
+           (rel : list str) (rootmode : N) (e : str * srcfile) : M unit :=
   let filepart := rel ++ [fst e] in
   if cp_mem filepart excl_files then ret tt
   else
@@ -346,8 +370,7 @@ Definition copydir_file (c : cfg) (dst_dir : path) (excl_files : list path) (mod
       (if pd : bool then ret tt
        else dm_makedirs c parent_dir false ;;;
             mutate c (fun f => m_chmod f parent_dir rootmode)) ;;;
-      let '(m, t, dg) := snd e in
-      _ <- do_copyfile c (SReg m t dg) abs_dst None ;;
+      _ <- do_copyfile c (snd e) abs_dst None ;;
       set_mode c abs_dst mode.
 
 Definition copydir_step (c : cfg) (dst_dir : path) (i : sitem) (w : wstep) : M unit :=
